@@ -107,8 +107,7 @@ def check_tables(chk) -> None:
     chk.expect(lw == want, "lw-total", "src/rnapolis/common.py LeontisWesthof", "LeontisWesthof has all 18 members c/t x {W,H,S}^2", "LeontisWesthof is not the full set of 18 classes: some cis/trans+edge combination raises KeyError", "common:LeontisWesthof:members", expected=sorted(want), found=sorted(lw))
 
 
-def check_contacts(chk, fi: FuncInfo, fm: FlowMap, loop: ast.For) -> None:
-    repo = chk.repo
+def check_radius(chk, fi: FuncInfo, loop: ast.For) -> None:
     c = spec("constants.json")["C03"]
     # radius
     r = fold_call_arg(chk, fi, loop.iter)
@@ -124,6 +123,11 @@ def check_contacts(chk, fi: FuncInfo, fm: FlowMap, loop: ast.For) -> None:
     )
     n_q = len(astq.calls(fi.node, "query_pairs")) + len(astq.calls(fi.node, "query_ball_point")) + len(astq.calls(fi.node, "query"))
     chk.expect(n_q == 1, "contact-source", fi.where, "one KD-tree query is the only source of contacts", f"{n_q} KD-tree queries: contacts have more than one source", K(fi, "sources"))
+
+
+def check_contacts(chk, fi: FuncInfo, fm: FlowMap, loop: ast.For) -> None:
+    """Pinned-form reading of the residue loop (fallback of c03e.check_registration)."""
+    repo = chk.repo
     # candidate atoms: acceptors + donors of the residue's base, by name
     res_loops = [l for l in fi.node.body if isinstance(l, ast.For) and astq.match(l.iter, "structure.residues") is not None]
     if len(res_loops) != 1:
@@ -151,7 +155,27 @@ def check_contacts(chk, fi: FuncInfo, fm: FlowMap, loop: ast.For) -> None:
     chk.expect(ok, "model-filter", fi.site(rl), "residues of other models are skipped first", "the residue loop does not start by skipping residues of other models", K(fi, "model-filter"))
 
 
+# rules that have a fact-level reading in checks/c03e.py: VIOLATION there, ANALYSIS-ERROR when only the pinned form could be tried
+FACT = {
+    "contact-skips", "contact-extra-filter", "contact-atoms", "contact-typing", "contact-roles", "model-filter", "contact-skips-dominate",
+    "label-extra-filter", "label-edges", "label-cistrans", "label-skips", "label-roles", "angle-record", "angle-operands",
+    "select-record", "select-source", "select-roles", "base-normal", "contact-distinct-points",
+}
+
+
+def _pinned(chk, fn, *a) -> None:
+    """Run a pinned-form rule group as a fallback: its findings in a rewritten function are 'idiom not recognised', not verdicts."""
+    saved = set(chk.robust)
+    chk.robust -= FACT
+    try:
+        fn(*a)
+    finally:
+        chk.robust |= saved
+
+
 def check_find_pairs(chk, parts=("contacts", "angles", "labels", "selection")) -> None:
+    from checks import c03e
+
     repo = chk.repo
     c = spec("constants.json")["C03"]
     fi = repo.func(AN, "find_pairs")
@@ -160,15 +184,42 @@ def check_find_pairs(chk, parts=("contacts", "angles", "labels", "selection")) -
     inl = Inliner(fi.node)
     loop = kd_loop(chk, fi)
     fold = Folder(repo, AN).fold
+    model = None
+    why = None
+    try:
+        model = c03e.pairs_model(chk, fi, loop)
+    except c03e.NotReadable as ex:
+        why = str(ex)
+    chk.robust |= FACT
+
+    def fact(name, fn, fallback) -> None:
+        """fact-level rule group; the pinned-form group only when the fact-level reading is impossible"""
+        if model is not None:
+            try:
+                fn()
+                return
+            except (c03e.NotReadable, c03e.SX.TooManyPaths) as ex:
+                reason = str(ex)
+            except AnalysisError:
+                raise
+            except Exception as ex:  # a crash of the reading is an analysis error of this rule group, never a verdict and never a traceback
+                chk.error("reading", fi.where, f"{name}: internal error of the fact-level reading ({type(ex).__name__}: {str(ex)[:120]})")
+                return
+        else:
+            reason = why
+        chk.ok("reading", fi.where, f"{name}: fact-level reading not possible ({reason[:120]}); pinned-form rules used")
+        _pinned(chk, fallback)
+
     if "contacts" in parts:
-        check_contacts(chk, fi, fm, loop)
-        _contact_skips(chk, fi, fm, loop)
+        check_radius(chk, fi, loop)
+        fact("registration", lambda: c03e.check_registration(chk, fi, model, spec, distinct="selection" in parts), lambda: check_contacts(chk, fi, fm, loop))
+        fact("contact loop", lambda: c03e.check_contacts(chk, fi, loop, model, _eq_fields), lambda: _contact_skips(chk, fi, fm, loop))
     if "angles" in parts:
-        _angle_window(chk, fi, fm, inl, loop, fold, c)
+        fact("angle window", lambda: c03e.check_angles(chk, fi, model, fold, c), lambda: _angle_window(chk, fi, fm, inl, loop, fold, c))
     if "labels" in parts:
-        _label_loop(chk, fi, fm, inl)
+        fact("labels", lambda: c03e.check_labels(chk, fi, model), lambda: _label_loop(chk, fi, fm, inl))
     if "selection" in parts:
-        _selection_loop(chk, fi, fm, inl, fold, c)
+        fact("selection", lambda: c03e.check_selection(chk, fi, model, fold, c), lambda: _selection_loop(chk, fi, fm, inl, fold, c))
 
 
 def _contact_skips(chk, fi, fm, loop) -> None:
@@ -651,10 +702,26 @@ def _selection_loop(chk, fi, fm, inl, fold, c) -> None:
 
 
 def check_cis_trans(chk) -> None:
+    """Fact-level reading (paths of detect_cis_trans: accept region of the 'c' paths, torsion atoms per pair of base letters);
+    the pinned-form reading only when that is impossible."""
+    from checks import c03e
+
     repo = chk.repo
     c = spec("constants.json")["C03"]
     fi = repo.func(AN, "detect_cis_trans")
     chk.note_function(fi)
+    try:
+        c03e.check_cis_trans(chk, fi, Folder(repo, AN).fold, c)
+        return
+    except (c03e.NotReadable, c03e.SX.TooManyPaths) as ex:
+        chk.ok("reading", fi.where, f"detect_cis_trans: fact-level reading not possible ({str(ex)[:120]}); pinned-form rules used")
+    _cis_trans_pinned(chk)
+
+
+def _cis_trans_pinned(chk) -> None:
+    repo = chk.repo
+    c = spec("constants.json")["C03"]
+    fi = repo.func(AN, "detect_cis_trans")
     inl = Inliner(fi.node)
     fold = Folder(repo, AN).fold
     rets = [r for r in astq.walk_no_nested(fi.node) if isinstance(r, ast.Return) and r.value is not None and not (isinstance(r.value, ast.Constant) and r.value.value is None)]
@@ -767,22 +834,17 @@ def check_cis_trans(chk) -> None:
 
 
 def check_base_normal(chk) -> None:
+    from checks import c03e
+
     repo = chk.repo
     fi = repo.func(T3, "Residue3D.base_normal_vector")
     chk.note_function(fi)
-    ifs = [s for s in fi.node.body if isinstance(s, ast.If)]
-    ok = False
-    if len(ifs) == 1 and norm(ifs[0].test) in ("self.one_letter_name in 'AG'",):
-        def atoms(block):
-            return [astq.match(s.value, "self.find_atom(A_)")["A_"].value for s in block if isinstance(s, ast.Assign) and astq.match(s.value, "self.find_atom(A_)")]
-        def vecs(block):
-            return [norm(s.value) for s in block if isinstance(s, ast.Assign) and norm(s.targets[0]) in ("v1", "v2")]
-        pu, py = atoms(ifs[0].body), atoms(ifs[0].orelse)
-        ok = pu == ["N9", "N7", "N3"] and py == ["N1", "C4", "O2"] and vecs(ifs[0].body) == ["n7.coordinates - n9.coordinates", "n3.coordinates - n9.coordinates"] and vecs(ifs[0].orelse) == ["c4.coordinates - n1.coordinates", "o2.coordinates - n1.coordinates"]
-    rets = [r for r in fi.node.body if isinstance(r, ast.Return)]
-    nrm = astq.first_assign(fi.node, "normal")
-    ok = ok and nrm is not None and norm(nrm) == "numpy.cross(v1, v2)" and len(rets) == 1 and norm(rets[0].value) == "normal / numpy.linalg.norm(normal)"
-    chk.expect(ok, "base-normal", fi.where, "base normal = unit cross product of (N7-N9, N3-N9) for purines, (C4-N1, O2-N1) otherwise", "the base normal is not the unit cross product of the two in-plane vectors N9->N7, N9->N3 (purines) / N1->C4, N1->O2 (pyrimidines)", K(fi, "normal"))
+    chk.robust |= {"base-normal"}
+    try:
+        c03e.check_base_normal(chk, fi)
+    except (c03e.NotReadable, c03e.SX.TooManyPaths) as ex:
+        chk.ok("reading", fi.where, f"base_normal_vector: fact-level reading not possible ({str(ex)[:120]}); pinned-form rule used")
+        _pinned(chk, _base_normal_pinned, chk, fi)
     abv = repo.func(AN, "angle_between_vectors")
     chk.note_function(abv)
     rets = [r for r in abv.node.body if isinstance(r, ast.Return)]
@@ -796,11 +858,28 @@ def check_base_normal(chk) -> None:
     )
 
 
+def _base_normal_pinned(chk, fi) -> None:
+    repo = chk.repo
+    ifs = [s for s in fi.node.body if isinstance(s, ast.If)]
+    ok = False
+    if len(ifs) == 1 and norm(ifs[0].test) in ("self.one_letter_name in 'AG'",):
+        def atoms(block):
+            return [astq.match(s.value, "self.find_atom(A_)")["A_"].value for s in block if isinstance(s, ast.Assign) and astq.match(s.value, "self.find_atom(A_)")]
+        def vecs(block):
+            return [norm(s.value) for s in block if isinstance(s, ast.Assign) and norm(s.targets[0]) in ("v1", "v2")]
+        pu, py = atoms(ifs[0].body), atoms(ifs[0].orelse)
+        ok = pu == ["N9", "N7", "N3"] and py == ["N1", "C4", "O2"] and vecs(ifs[0].body) == ["n7.coordinates - n9.coordinates", "n3.coordinates - n9.coordinates"] and vecs(ifs[0].orelse) == ["c4.coordinates - n1.coordinates", "o2.coordinates - n1.coordinates"]
+    rets = [r for r in fi.node.body if isinstance(r, ast.Return)]
+    nrm = astq.first_assign(fi.node, "normal")
+    ok = ok and nrm is not None and norm(nrm) == "numpy.cross(v1, v2)" and len(rets) == 1 and norm(rets[0].value) == "normal / numpy.linalg.norm(normal)"
+    chk.expect(ok, "base-normal", fi.where, "base normal = unit cross product of (N7-N9, N3-N9) for purines, (C4-N1, O2-N1) otherwise", "the base normal is not the unit cross product of the two in-plane vectors N9->N7, N9->N3 (purines) / N1->C4, N1->O2 (pyrimidines)", K(fi, "normal"))
+
+
 # rules whose violations are evaluated facts about the current code (folded constants, accept regions, path enumeration, tables)
 ROBUST = {
     "table-pinned", "table-closure", "lw-total", "contact-radius", "contact-source", "angle-window", "cis-trans", "select-min-contacts",
     "edge-exclusive", "select-extra-filter", "select-class", "label-orientation", "cis-trans-atoms", "same-residue-identity",
-}
+} | FACT
 
 
 def run(chk) -> None:
